@@ -5,9 +5,13 @@ import os
 from vlib import core
 
 
-def write_cfg(path, np_, nn, depth, vals, mode):
+WIDE = 14   # array length of the wide fan-in starting shape (above sort.Slice's insertion-sort size, 12)
+
+
+def write_cfg(path, np_, nn, depth, vals, mode, wide=0):
     with open(path, "w") as f:
-        f.write("CONSTANTS NP = %d NN = %d Depth = %d Vals = {%s}\n" % (np_, nn, depth, ",".join(map(str, vals))))
+        f.write("CONSTANTS NP = %d NN = %d Depth = %d Vals = {%s} Wide = %d\n" %
+                (np_, nn, depth, ",".join(map(str, vals)), wide))
         if mode == "trace":
             f.write("SPECIFICATION TSpec\nPOSTCONDITION TraceAccepted\nCHECK_DEADLOCK FALSE\n")
         else:
@@ -39,7 +43,11 @@ def judge(ctx, vh, hists, np_, nn, reps, name):
     hp = os.path.join(d, "h.ndjson")
     core.write_ndjson(hp, hists)
     tp = os.path.join(d, "trace.ndjson")
-    core.run_vh(vh, ["ng-exec", "-in", hp, "-out", tp, "-reps", str(reps)], timeout=900)
+    # the process is part of the state (per-type caches, package-level tables): the histories are spread over
+    # fresh process images, so many different histories are the first thing a process does
+    procs = min(64, max(1, len(hists) // 8))
+    ctx.extra["process_images"] = ctx.extra.get("process_images", 0) + procs
+    core.run_vh(vh, ["ng-exec", "-in", hp, "-out", tp, "-reps", str(reps), "-procs", str(procs)], timeout=900)
     raw = open(tp).readlines()
     cfgp = os.path.join(core.SPECS, "_TraceNG_%s_%s.cfg" % (ctx.pid, name))
     write_cfg(cfgp, np_, nn, 0, [1], "trace")
@@ -53,7 +61,9 @@ def judge(ctx, vh, hists, np_, nn, reps, name):
             if isinstance(v, dict) and "bad" in v:
                 ln = json.loads(sh[v["l"] - 1])
                 for pred in v["bad"]:
-                    findings.append({"pred": pred, "k": ln["k"], "h": ln["h"], "i": ln["i"], "detail": v})
+                    k = next(k for k in range(procs) if k * len(hists) // procs <= ln["h"] < (k + 1) * len(hists) // procs)
+                    findings.append({"pred": pred, "k": ln["k"], "h": ln["h"], "i": ln["i"], "detail": v,
+                                     "first": k * len(hists) // procs})
     ctx.traces += len(hists) * reps
     ctx.evaluations += len(raw)
     return findings
@@ -65,10 +75,13 @@ def report(ctx, hists, findings, np_, nn):
             raise core.Infra("harness inconsistency %s (history %d step %d)" % (f["pred"], f["h"], f["i"]))
         h = hists[f["h"]]
         sig = "%s/%s" % (f["pred"], f["k"])
+        case = {"family": "nodegraph", "np": np_, "nn": nn,
+                "history": {"np": np_, "nn": nn, "steps": h["steps"][:f["i"] + 1]}}
+        if f.get("first", f["h"]) != f["h"]:
+            # what the process image did first (state the process carries: caches, package-level tables)
+            case["process_first"] = hists[f["first"]]
         ctx.violation(sig, "%s at step %d (%s) of a %s history; executed=%s notdirty=%s" %
-                      (f["pred"], f["i"], f["k"], h.get("tag"), f["detail"].get("executed"), f["detail"].get("notdirty")),
-                      {"family": "nodegraph", "np": np_, "nn": nn,
-                       "history": {"np": np_, "nn": nn, "steps": h["steps"][:f["i"] + 1]}})
+                      (f["pred"], f["i"], f["k"], h.get("tag"), f["detail"].get("executed"), f["detail"].get("notdirty")), case)
 
 
 def run(ctx):
@@ -76,7 +89,7 @@ def run(ctx):
     quick = ctx.tier == "quick"
     # (1) exhaustive generator on the small configuration
     d = ctx.scratch("gen")
-    write_cfg(os.path.join(d, "Gen.cfg"), 2, 3, 3 if quick else 4, [1, 13] if quick else [1, 2, 13], "bfs")   # 13: p1:13 makes processors fail
+    write_cfg(os.path.join(d, "Gen.cfg"), 2, 3, 3 if quick else 4, [1, 13] if quick else [1, 2, 13], "bfs", wide=WIDE)   # 13: p1:13 makes processors fail
     r = core.run_tlc(d, "NodeGraph", "Gen.cfg", files=[(os.path.join(d, "Gen.cfg"), "Gen.cfg")],
                      workers=core.NCPU, timeout=2400, heap="10g")
     if r.rc != 0:
@@ -162,10 +175,13 @@ def replay(ctx, path):
     obj = json.load(open(path))["case"]
     vh = core.build_vh()
     h = obj["history"]
-    findings = judge(ctx, vh, [h], obj["np"], obj["nn"], 5, "replay")
+    hs = [h]
+    if "process_first" in obj:
+        hs = [obj["process_first"], h]      # one process image: first what it did first, then the history
+    findings = judge(ctx, vh, hs, obj["np"], obj["nn"], 5, "replay")
     for f in findings:
-        print("replay: %s at step %d" % (f["pred"], f["i"]))
-    report(ctx, [h], findings, obj["np"], obj["nn"])
+        print("replay: %s at step %d of history %d" % (f["pred"], f["i"], f["h"]))
+    report(ctx, hs, findings, obj["np"], obj["nn"])
     ctx.rule = "replay"
     ctx.nontrivial = 2
     ctx.sample({"replayed": path})
